@@ -4,7 +4,9 @@ real OFXClient.serialize, OFXTree.parse and OFXTree.convert.
 One case = one shard of the model classes (every class, in both tiers).  For each class, 2 instances (6 in
 the thorough tier) are built with the C13 witness constructor and *varied values*:
    strings   over letters, digits, & < > " ' and non-ASCII characters, interior blanks, never empty, no
-             leading/trailing whitespace, no text that itself spells an entity (known finding KF-C10-string-entity)
+             leading/trailing whitespace; some spell an entity - the constructor decodes those once (C10's known
+             finding KF-C10-string-entity), and the value the instance then holds is what must survive (&nbsp; is not
+             injected: decoded at an edge it would be edge whitespace, outside the property's domain)
    decimals  negative/positive, 0..6 fractional digits, written in plain notation (values whose str() has an
              exponent are the known finding KF-C11-decimal-exponent)
    date-times with milliseconds and time zones other than UTC; times likewise
@@ -27,7 +29,7 @@ from contracts.spec.ofxtypes import has_entity
 _state = {}
 V1 = (102, 103, 151, 160)
 V2 = (200, 201, 202, 203, 210, 211, 220)
-CHARS = "abcXYZ019 &<>\"'é€ß日._-/;#"
+CHARS = "abcXYZ019 &<>\"'é€ß日._-/;#" + "ampltg"
 
 
 def _builder(seed):
@@ -47,8 +49,15 @@ def _builder(seed):
                 n = t.length if getattr(t, "length", None) else 12
                 for _ in range(20):
                     k = rng.randint(1, max(1, min(n, 10)))
-                    s = "".join(rng.choice(CHARS) for _ in range(k)).strip()
-                    if s and not has_entity(s) and len(s) <= n:
+                    s = "".join(rng.choice(CHARS) for _ in range(k))
+                    if rng.random() < 0.15:
+                        # text spelling an entity or a character reference: the constructor decodes it once (that
+                        # is C10's known finding); what the *instance* then holds must survive the wire
+                        e_ = rng.choice(("&amp;", "&lt;", "&gt;", "&quot;", "&apos;", "&#38;", "&amp;amp;", "&amp;lt;"))
+                        cut = rng.randint(0, len(s))
+                        s = (s[:cut] + e_ + s[cut:])[:n] if len(e_) <= n else s
+                    s = s.strip()
+                    if s and len(s) <= n:
                         return s
                 return "x"
             if isinstance(t, T.Integer):
